@@ -669,10 +669,17 @@ class Translator:
             if pt.ref:
                 out.append(self.addr_of(a, cx))
             else:
-                out.append(self.value_of(a, cx, pt))
+                out.append(self.hoist_throwing(self.value_of(a, cx, pt), pt, cx))
         if len(args) > len(params):
             raise Unsupported(f'variadic call from {cx.cname}')
         return out
+
+    def hoist_throwing(self, v, pt, cx):
+        """initialising a by-value parameter may raise (user copy / move constructor): in units with unwinding edges it
+        is done in a statement of its own, so that the call is not made when it did"""
+        if self.cfg.get('exc_edges') and cx.split_mode is None and re.search(r'\b\w+_(COPY|MOVE)\(', v) and pt.cls == 'record':
+            t = cx.tmp('arg'); cx.pre.append(f'{pt.c} {t} = {v};'); return t
+        return v
 
     def value_of(self, n, cx, t=None):
         """C rvalue for initialising an object of type t from expression n (copy / move semantics made explicit)"""
@@ -897,7 +904,7 @@ class Translator:
             if t.cls == 'empty': continue
             if sx.get('valueCategory') == 'prvalue' and self.is_move_call(x) is None:
                 v = self.value_of(x, cx, t); t = self.ctype(self.qt(sx))      # (a lambda gets its C name when it is translated)
-                a.append(v); ps.append(f'{t.c} a{i}')
+                a.append(self.hoist_throwing(v, t, cx)); ps.append(f'{t.c} a{i}')
             else:
                 a.append(self.addr_of(x, cx)); ps.append(f'{t.c} *a{i}')
             if t.cls == 'lambda': cn += '__' + t.c       # a lambda argument is part of the stub's name (its type is part of the signature)
@@ -1088,7 +1095,7 @@ class Translator:
             for i, x in enumerate(args):
                 sx = self.skip(x); tx = self.ctype(self.qt(sx))
                 if sx.get('valueCategory') == 'prvalue' and self.is_move_call(x) is None:
-                    a.append(self.E(x, cx)); ps.append(f'{tx.c} a{i}')
+                    a.append(self.hoist_throwing(self.E(x, cx), tx, cx)); ps.append(f'{tx.c} a{i}')
                 else:
                     a.append(self.addr_of(x, cx)); ps.append(f'{tx.c} *a{i}')
             rt = self.ctype(self.qt(n))
@@ -1132,7 +1139,7 @@ class Translator:
             pd = ', '.join([self.ctype(self.qt(p)).decl(p['name']) for p in ps] + self.ghost_decls())
             pa = ', '.join([p['name'] for p in ps] + self.ghost_args())
             text = (f'{rec.c} *{ms}({pd})\n#ifdef USE_CONTRACT_{ms}\nCONTRACT({ms})\n#endif\n{{\n  {rec.c} *__n = {rec.c}_alloc({", ".join(self.ghost_args())});\n'
-                    f'  if (EXC_PENDING) return NULL;\n  {cn}(__n, {pa});\n  return __n;\n}}')
+                    f'  if (EXC_PENDING) return NULL;\n  {cn}(__n, {pa});\n  if (EXC_PENDING) return NULL;      /* the constructor raised: make_shared releases the storage */\n  return __n;\n}}')
             self.funcs.append((ms, f'{rec.c} *{ms}({pd})', text, 'std::make_shared = trusted allocation + extracted constructor'))
             self.externs[f'{rec.c}_alloc'] = f'{rec.c} *{rec.c}_alloc({", ".join(self.ghost_decls()) or "void"})'
         a = self.pass_args(ps, args, cx) + self.ghost_args()
@@ -1260,15 +1267,35 @@ class Translator:
                 for vid, (cexpr, t) in cx.vars.items():
                     if t.cls == 'listit' and not t.ref:
                         cx.emit(f'WIT_STABLE(&{cexpr});')
+            if '(' in e: self.exc_edge(cx)
             return
         h(n, cx)
 
     def srcnote(self, n):
         return ''
 
+    def exc_edge(self, cx):
+        """unwinding edge (units with cfg exc_edges, compiled in with -DMODE_EXC only): if the statement just executed
+        raised (ghost g_exc, set by a may-throw primitive or by a callee that unwound), the destructors of every open
+        scope run in reverse order and the function is left"""
+        if not self.cfg.get('exc_edges') or cx.split_mode is not None: return
+        rt = cx.ret
+        if rt.cls == 'void' and not rt.ref: ret = 'return;'
+        elif rt.ref and cx.self_expr == 'self' and cx.self_type and rt.c == cx.self_type: ret = 'return self;      /* (value unused: the caller unwinds) */'
+        elif rt.ref or rt.cls in ('ptr', 'sp'): ret = 'return NULL;'
+        elif rt.cls in ('builtin', 'enum'): ret = 'return 0;'
+        else: ret = f'return ({rt.c}){{0}};'
+        cx.emit('#ifdef MODE_EXC')
+        cx.emit('if (g_exc) { /* unwinding: the destructors run as ordinary code, then the exception continues */')
+        cx.ind += 1; cx.emit('g_exc = 0;'); self.exit_scopes(cx, 0); cx.emit('g_exc = 1;'); cx.emit(ret); cx.ind -= 1
+        cx.emit('}')
+        cx.emit('#endif')
+
     def flush_pre(self, cx):
-        for p in cx.pre: cx.emit(p)
-        cx.pre = []
+        pre = cx.pre; cx.pre = []
+        for p in pre:
+            cx.emit(p)
+            if '(' in p and not p.lstrip().startswith('/*'): self.exc_edge(cx)      # a hoisted temporary whose initialiser may raise
 
     def S_NullStmt(self, n, cx): pass
 
@@ -1290,7 +1317,9 @@ class Translator:
         for v in n['inner']:
             if v.get('kind') in ('TypeAliasDecl', 'TypedefDecl', 'UsingDecl', 'StaticAssertDecl'): continue
             if v.get('kind') != 'VarDecl': raise Unsupported(f'declaration {v.get("kind")} in {cx.cname}')
+            k0 = len(cx.lines)
             self.var_decl(v, cx)
+            if any('(' in l and 'MUTEX_LOCK' not in l and 'WLIST_INIT' not in l for l in cx.lines[k0:]): self.exc_edge(cx)
 
     def var_decl(self, v, cx):
         t = self.ctype(self.qt(v))
@@ -1392,6 +1421,12 @@ class Translator:
         if n.get('hasInit') or n.get('hasVar'): raise Unsupported(f'if with init/var in {cx.cname}')
         cond = self.E(parts[0], cx)
         self.flush_pre(cx)
+        if self.cfg.get('exc_edges') and cx.split_mode is None and re.search(r'[A-Za-z_]\w*\(', cond) and not re.fullmatch(r'[\s!()]*(WLIST_EMPTY|INTERFERE_POINT|WIT_NE|WLIST_END|WLIST_BEGIN)\b.*', cond):
+            # a condition that calls something may raise: it is evaluated into a temporary, then the unwinding edge
+            t = cx.tmp('c')
+            cx.emit(f'_Bool {t} = ({cond});')
+            self.exc_edge(cx)
+            cond = t
         cx.emit(f'if ({cond})')
         self.S_block(parts[1], cx)
         if len(parts) > 2:
